@@ -27,12 +27,13 @@ template<class M>
 struct has_shared<M, std::void_t<decltype(std::declval<M&>().lock_shared())>>: std::true_type {};
 
 enum Holder { H_NONE, H_X, H_S, H_MODIFY, H_DETACH, H_S_PENDING };
-enum Behav { B_HOLD, B_DESTROY, B_UNLOCK, B_MOVE_CTOR, B_MOVE_ASSIGN };
+enum Behav { B_HOLD, B_DESTROY, B_UNLOCK, B_MOVE_CTOR, B_MOVE_ASSIGN, B_ASSIGN_NULL };
 enum Cont { C_TRY, C_TRY_FOR, C_TRY_UNTIL, C_STRY, C_STRY_FOR, C_STRY_UNTIL, C_LOCK, C_LOCK_SHARED, C_CONST_LOCK, C_TRY_THEN_LOCK, C_STRY_THEN_LOCK };
 const char* holdern[] = {"no holder", "holder: exclusive handle", "holder: shared handle", "holder: inside modify()",
                          "holder: inside modify_detach()", "holder: shared handle with a modification queued behind it"};
 const char* behavn[] = {"held until the attempt is over", "destroyed concurrently", "unlock()ed concurrently",
-                        "move-constructed then destroyed concurrently", "move-assigned then destroyed concurrently"};
+                        "move-constructed then destroyed concurrently", "move-assigned then destroyed concurrently",
+                        "released concurrently by assigning a null handle to it"};
 const char* contn[] = {"try_lock", "try_lock_for", "try_lock_until", "try_lock_shared", "try_lock_shared_for",
                        "try_lock_shared_until", "lock (blocking)", "lock_shared (blocking)", "const lock() (blocking)",
                        "try_lock, then the same handle is assigned lock()", "try_lock_shared, then the same handle is assigned lock_shared()"};
@@ -122,6 +123,24 @@ struct Gen {
                         MC_CHECK(holds(mtx) != 0, "move-lost-lock", "lock not held after move assignment");
                     }
                     MC_CHECK(bool(h2), "move-null", "move-assigned handle is null");
+                    point();
+                }
+                delete w2;
+                break;
+            }
+            case B_ASSIGN_NULL: {
+                // the handle is overwritten with a null handle (one that was unlock()ed): afterwards it is null, and a
+                // null handle holds nothing
+                W* w2 = make(enabled);
+                {
+                    H hb = [&] {
+                        if constexpr (std::is_same_v<H, lg::lock_handle<Pair, M>>) return w2->lock();
+                        else return w2->lock_shared();
+                    }();
+                    hb.unlock();
+                    h = std::move(hb);
+                    MC_CHECK(!bool(h), "assign-null", "handle is non-null after a null handle was assigned to it");
+                    if (enabled) MC_CHECK(holds(mtx) == 0, "assign-kept-old", "assigning a null handle did not release the lock the target held");
                     point();
                 }
                 delete w2;
@@ -387,7 +406,7 @@ struct Gen {
                         out.push_back(it);
                     }
             for (int h : holders)
-                for (int b = B_HOLD; b <= B_MOVE_ASSIGN; b++) {
+                for (int b = B_HOLD; b <= B_ASSIGN_NULL; b++) {
                     if ((h == H_NONE) && b != B_HOLD) continue;
                     if ((h == H_MODIFY || h == H_DETACH || h == H_S_PENDING) && b != B_HOLD) continue;
                     for (int c : conts)
